@@ -138,10 +138,10 @@ def run(args):
             by_stream.setdefault(c[0].split(" ")[1], []).append((c, m))
         names = {"policy": "result_numeric_type/needs_float_promotion (whole table)", "litinfo": "PowExponentKind::from_literal_info",
                  "types": "checker type, IR type, emit plans", "bind": "annotated let / return / argument verdicts",
-                 "compound": "compound-assignment verdicts"}
+                 "compound": "compound-assignment verdicts", "cplan": "emit plan of the desugared compound assignment (local variable and mut parameter)"}
         for name, items in sorted(by_stream.items()):
             ctx.tie(f"model = real on {names.get(name, name)}", [i[0] for i in items], [i[1] for i in items])
-        hist = {"ops": {}, "depth": {}, "spec_types": {}, "bind": {}, "known_arg_cases": 0}
+        hist = {"ops": {}, "depth": {}, "spec_types": {}, "bind": {}, "cplan": {}, "known_arg_cases": 0}
         for req, real in cases:
             p = req.split(" ")
             kind = p[1]
@@ -199,6 +199,19 @@ def run(args):
                 exp = "accept" if spec_bin(op, vt, s, False) == vt else "reject"
                 if real != exp:
                     failures.append({"request": req, "real": real, "why": f"`v {op}= e` with v: {vt}, e: {s} should be {exp}ed"})
+            elif kind == "cplan":
+                op, vt, target = p[2], p[3], p[4]
+                exp_ok = spec_bin(op, vt, s, False) == vt
+                if (real == "reject") == exp_ok:
+                    failures.append({"request": req, "real": real, "why": f"`v {op}= e` on a {target} v: {vt}, e: {s} should be {'accepted' if exp_ok else 'rejected'}"})
+                elif exp_ok:
+                    plan = real[len("plan="):]
+                    node = (op, ("vi",) if vt == "int" else ("vf",), e)
+                    rt = rust_type_of(node, plan) if plan.count(":") == 2 else None
+                    hist["cplan"][f"{target}:{plan}"] = hist["cplan"].get(f"{target}:{plan}", 0) + 1
+                    if rt != vt:
+                        failures.append({"request": req, "real": real,
+                                         "why": f"`v {op}= e` on a {target} v: {vt} is emitted as `v = v {op} e` with a shape of Rust type {rt} (plan {plan}); the variable is {vt}"})
         seen = set()
         for f in failures:
             key = f["why"][:40]
